@@ -1070,6 +1070,36 @@ where
                 .annotations_in_targets(*depth)
                 .filter_handle(*handle)
                 .test(),
+            Filter::Annotations(handles, FilterMode::Any, SelectionQualifier::Metadata, depth) => {
+                annotation
+                    .annotations_in_targets(*depth)
+                    .filter_any_byref(handles)
+                    .test()
+            }
+            Filter::Annotations(handles, FilterMode::All, SelectionQualifier::Metadata, depth) => {
+                annotation
+                    .annotations_in_targets(*depth)
+                    .filter_all(handles.clone(), annotation.store())
+                    .test()
+            }
+            Filter::BorrowedAnnotations(
+                handles,
+                FilterMode::Any,
+                SelectionQualifier::Metadata,
+                depth,
+            ) => annotation
+                .annotations_in_targets(*depth)
+                .filter_any_byref(handles)
+                .test(),
+            Filter::BorrowedAnnotations(
+                handles,
+                FilterMode::All,
+                SelectionQualifier::Metadata,
+                depth,
+            ) => annotation
+                .annotations_in_targets(*depth)
+                .filter_all(handles.deref().clone(), annotation.store())
+                .test(),
             Filter::Data(data, FilterMode::Any, _) => {
                 annotation.data().filter_any_byref(&data).test()
             }
